@@ -29,6 +29,23 @@
 (* Handles are numbered in the order in which they are handed in            *)
 (* (1,2,3,...); a typed object created in slot k by a producer carries the  *)
 (* value k, so values of distinct producers differ.                         *)
+(*                                                                          *)
+(* The driver's OWN handle (Self) can be in a suspend point as well: it is  *)
+(* what `co_await cocls::self()` (self.h) yields.  It is a readiness token  *)
+(* of the driver (selfReady): awaiting a suspend point that contains it     *)
+(* must resume the driver exactly once (:170-181, the me_included check,    *)
+(* also when pop() picks the own handle for the symmetric transfer - fixed  *)
+(* in /repo 283e427, Fixed = FALSE is the behaviour before).  Histories in  *)
+(* which the *running* driver would be resumed (undefined behaviour of the  *)
+(* caller, not of the library) are not generated: clear()/destruction of an *)
+(* object holding Self outside coroutine mode; queuing the driver a second  *)
+(* time (co_await of a non-empty object, pause(), self()) while Self waits  *)
+(* in the ready queue.                                                      *)
+(*                                                                          *)
+(* The attached value of a typed object is (val, mv): val = identity given  *)
+(* by the producer, mv = the member is in moved-from state.  Only the C++   *)
+(* move operations of the whole object leave their source moved-from; no    *)
+(* read (operator X(), operator const X() const, await_resume) changes it.  *)
 (***************************************************************************)
 EXTENDS Naturals, Sequences, FiniteSets, TLC
 
@@ -38,12 +55,14 @@ CONSTANTS MaxObj,    \* object slots
           Modes,     \* initial modes, subset of {"normal","coro"}
           Typed,     \* TRUE: suspend_point<int> objects take part
           Ops,       \* names of the operations that take part (bias of a configuration)
+          Fixed,     \* TRUE: /repo 283e427 (own handle picked by pop() is not queued again)
           Targets    \* handle counts AddTo may fill an object up to (bias to the capacity boundaries)
 
 InlineCap == 3       \* suspend_point<void>::inline_count, suspend_point.h:42
 
 Slots == 1..MaxObj
 Handles == 1..MaxH
+Self == MaxH + 1     \* the driver coroutine's own handle
 
 VARIABLES sp,        \* sp[k]: the object in slot k (record, see Dead/Fresh)
           nextH,     \* handles 1..nextH have been handed to some suspend point
@@ -53,13 +72,16 @@ VARIABLES sp,        \* sp[k]: the object in slot k (record, see Dead/Fresh)
           mode,      \* "normal" | "coro"
           blocks,    \* live new[] blocks
           dalloc,    \* number of new[] executed by the last operation
-          ret,       \* value returned by the last operation (pop: handle, co_await: value; else 0)
+          ret,       \* value returned by the last operation (pop: handle, read/co_await: value; else 0)
+          rmf,       \* the object returned by the last read / co_await was in moved-from state
+          dres,      \* how many times the driver itself was resumed during the last operation
+          selfReady, \* outstanding readiness tokens of the driver (own handle handed to a suspend point)
           steps, done
 
-vars == <<sp, nextH, resumed, burst, queue, mode, blocks, dalloc, ret, steps, done>>
+vars == <<sp, nextH, resumed, burst, queue, mode, blocks, dalloc, ret, rmf, dres, selfReady, steps, done>>
 
-Dead == [live |-> FALSE, ty |-> FALSE, val |-> 0, h |-> <<>>, heap |-> FALSE, cap |-> 0]
-Fresh(t, v, hs) == [live |-> TRUE, ty |-> t, val |-> v, h |-> hs, heap |-> FALSE, cap |-> 0]
+Dead == [live |-> FALSE, ty |-> FALSE, val |-> 0, mv |-> FALSE, h |-> <<>>, heap |-> FALSE, cap |-> 0]
+Fresh(t, v, hs) == [live |-> TRUE, ty |-> t, val |-> v, mv |-> FALSE, h |-> hs, heap |-> FALSE, cap |-> 0]
 
 Types == IF Typed THEN {FALSE, TRUE} ELSE {FALSE}
 Last(s) == s[Len(s)]
@@ -124,6 +146,7 @@ Init == /\ sp = [k \in Slots |-> Dead]
         /\ queue = <<>>
         /\ mode \in Modes
         /\ blocks = 0 /\ dalloc = 0 /\ ret = 0 /\ steps = 0 /\ done = FALSE
+        /\ rmf = FALSE /\ dres = 0 /\ selfReady = 0
 
 Tick(op) == /\ ~done /\ op \in Ops
             /\ IF MaxSteps = 0
@@ -135,12 +158,18 @@ Tick(op) == /\ ~done /\ op \in Ops
 Grown(o, r) == /\ dalloc' = r.a
                /\ blocks' = blocks + B2N(r.o.heap /\ ~o.heap)
 NoAlloc == dalloc' = 0
+(* the operation returns nothing / the driver is not suspended and its token is not touched *)
+NoRet == ret' = 0 /\ rmf' = FALSE
+Quiet == dres' = 0 /\ UNCHANGED selfReady
+SelfIn(s) == \E k \in 1..Len(s) : s[k] = Self
+NoSelf(s) == SelectSeq(s, LAMBDA x : x # Self)
+PosSelf(s) == CHOOSE k \in 1..Len(s) : s[k] = Self
 
 (* suspend_point() :45, suspend_point<X>(X) :288 *)
 ConstructEmpty(k, t) ==
     /\ Tick("ConstructEmpty") /\ IsFree(k)
     /\ sp' = [sp EXCEPT ![k] = Fresh(t, IF t THEN k ELSE 0, <<>>)]
-    /\ burst' = <<>> /\ ret' = 0 /\ NoAlloc
+    /\ burst' = <<>> /\ NoRet /\ NoAlloc /\ Quiet
     /\ UNCHANGED <<nextH, resumed, queue, mode, blocks>>
 
 (* suspend_point(coroutine_handle<>) :50, suspend_point<X>(coroutine_handle<>, X) :290 *)
@@ -148,12 +177,22 @@ ConstructH(k, t) ==
     /\ Tick("ConstructH") /\ IsFree(k) /\ nextH < MaxH
     /\ sp' = [sp EXCEPT ![k] = Fresh(t, IF t THEN k ELSE 0, <<nextH + 1>>)]
     /\ nextH' = nextH + 1
-    /\ burst' = <<>> /\ ret' = 0 /\ NoAlloc
+    /\ burst' = <<>> /\ NoRet /\ NoAlloc /\ Quiet
     /\ UNCHANGED <<resumed, queue, mode, blocks>>
+
+(* `co_await cocls::self()` (self.h:16-30: suspend_point<void> holding the caller's own handle; the
+   caller is not really suspended) move-constructed into slot k; typed: through
+   suspend_point<X>(suspend_point<void>&&, X) :293.  One token at a time. *)
+ConstructSelf(k, t) ==
+    /\ Tick("ConstructSelf") /\ IsFree(k) /\ selfReady = 0
+    /\ sp' = [sp EXCEPT ![k] = Fresh(t, IF t THEN k ELSE 0, <<Self>>)]
+    /\ selfReady' = 1 /\ dres' = 0
+    /\ burst' = <<>> /\ NoRet /\ NoAlloc
+    /\ UNCHANGED <<nextH, resumed, queue, mode, blocks>>
 
 (* move construction into the free slot k from object i.
    kind "same": suspend_point(suspend_point&&) :55 resp. the implicit move constructor of
-                suspend_point<X> (value copied);
+                suspend_point<X> (value moved: the source's value is left moved-from);
    kind "void": suspend_point<void>(std::move(typed object)) -- the base is moved out of a typed one;
    kind "int" : suspend_point<X>(suspend_point<void>&&, X) :293 with the fresh value k.
    The block (if any) changes its owner; the source keeps neither handles nor the flag. *)
@@ -164,10 +203,11 @@ MoveConstruct(k, i, kind) ==
        \/ kind = "int" /\ Typed
     /\ LET t == IF kind = "same" THEN sp[i].ty ELSE kind = "int"
            v == IF kind = "same" THEN sp[i].val ELSE IF kind = "int" THEN k ELSE 0
-       IN sp' = [sp EXCEPT ![k] = [live |-> TRUE, ty |-> t, val |-> v, h |-> sp[i].h, heap |-> sp[i].heap,
-                                   cap |-> sp[i].cap],
-                           ![i] = Cleared(sp[i])]
-    /\ burst' = <<>> /\ ret' = 0 /\ NoAlloc
+           m == kind = "same" /\ sp[i].mv
+       IN sp' = [sp EXCEPT ![k] = [live |-> TRUE, ty |-> t, val |-> v, mv |-> m, h |-> sp[i].h,
+                                   heap |-> sp[i].heap, cap |-> sp[i].cap],
+                           ![i] = [Cleared(sp[i]) EXCEPT !.mv = @ \/ (kind = "same" /\ sp[i].ty)]]
+    /\ burst' = <<>> /\ NoRet /\ NoAlloc /\ Quiet
     /\ UNCHANGED <<nextH, resumed, queue, mode, blocks>>
 
 NewHandles(n) == [k \in 1..n |-> nextH + k]
@@ -178,8 +218,17 @@ AddHandle(i) ==
     /\ LET r == AddIter(sp[i], <<nextH + 1>>)
        IN sp' = [sp EXCEPT ![i] = r.o] /\ Grown(sp[i], r)
     /\ nextH' = nextH + 1
-    /\ burst' = <<>> /\ ret' = 0
+    /\ burst' = <<>> /\ NoRet /\ Quiet
     /\ UNCHANGED <<resumed, queue, mode>>
+
+(* sp[i] << co_await cocls::self(): operator<<(suspend_point&&) :65 with a one-handle source *)
+AddSelf(i) ==
+    /\ Tick("AddSelf") /\ sp[i].live /\ selfReady = 0
+    /\ LET r == AddIter(sp[i], <<Self>>)
+       IN sp' = [sp EXCEPT ![i] = r.o] /\ Grown(sp[i], r)
+    /\ selfReady' = 1 /\ dres' = 0
+    /\ burst' = <<>> /\ NoRet
+    /\ UNCHANGED <<nextH, resumed, queue, mode>>
 
 (* n consecutive operator<<(coroutine_handle<>&&) filling the object exactly up to its current
    capacity (inline: 3, heap: _ext._capacity): a macro step which lets short histories reach the
@@ -191,111 +240,8 @@ AddFill(i, n) ==
     /\ LET r == AddRun(sp[i], NewHandles(n))
        IN sp' = [sp EXCEPT ![i] = r.o] /\ Grown(sp[i], r)
     /\ nextH' = nextH + n
-    /\ burst' = <<>> /\ ret' = 0
+    /\ burst' = <<>> /\ NoRet /\ Quiet
     /\ UNCHANGED <<resumed, queue, mode>>
-
-(* the common part of operator<<(suspend_point&&) :65-79: every handle of j is add()ed to i in array
-   order, j's block is deleted, j's flag word zeroed *)
-MergeInto(i, j, v) ==
-    /\ i # j /\ sp[i].live /\ sp[j].live
-    /\ LET r == AddRun(sp[i], sp[j].h)
-       IN /\ sp' = [sp EXCEPT ![i] = [r.o EXCEPT !.val = v], ![j] = Cleared(sp[j])]
-          /\ dalloc' = r.a
-          /\ blocks' = blocks + B2N(r.o.heap /\ ~sp[i].heap) - B2N(sp[j].heap)
-    /\ burst' = <<>> /\ ret' = 0
-    /\ UNCHANGED <<nextH, resumed, queue, mode>>
-
-MergeShl(i, j) == Tick("MergeShl") /\ MergeInto(i, j, sp[i].val)
-
-(* operator=(suspend_point&&) :93 merges; between two typed objects the implicit move assignment of
-   suspend_point<X> also assigns the value.  typed = std::move(untyped) does not compile. *)
-MoveAssign(i, j) ==
-    /\ Tick("MoveAssign") /\ ~(sp[i].ty /\ ~sp[j].ty)
-    /\ MergeInto(i, j, IF sp[i].ty /\ sp[j].ty THEN sp[j].val ELSE sp[i].val)
-
-(* pop() :118-127; the caller (the replayer) resumes the returned handle at once *)
-Pop(i) ==
-    /\ Tick("Pop") /\ sp[i].live
-    /\ IF sp[i].h = <<>>
-         THEN /\ ret' = 0 /\ burst' = <<>>
-              /\ UNCHANGED <<sp, resumed>>
-         ELSE /\ ret' = Last(sp[i].h)
-              /\ burst' = <<Last(sp[i].h)>>
-              /\ resumed' = Bump(resumed, burst')
-              /\ sp' = [sp EXCEPT ![i].h = Front(@)]     \* heap flag and capacity stay
-    /\ NoAlloc
-    /\ UNCHANGED <<nextH, queue, mode, blocks>>
-
-(* suspend_now() :130-145: coroutine mode -> queued in array order; otherwise resumed at once in
-   array order under a temporarily installed queue; then clear_internal() *)
-Emit(hs) ==
-    IF mode = "coro"
-      THEN /\ queue' = queue \o hs /\ burst' = <<>> /\ UNCHANGED resumed
-      ELSE /\ burst' = hs /\ resumed' = Bump(resumed, hs) /\ UNCHANGED queue
-
-(* clear() :108 / suspend_now() *)
-Clear(i) ==
-    /\ Tick("Clear") /\ sp[i].live
-    /\ Emit(sp[i].h)
-    /\ sp' = [sp EXCEPT ![i] = Cleared(sp[i])]
-    /\ blocks' = blocks - B2N(sp[i].heap)
-    /\ ret' = 0 /\ NoAlloc
-    /\ UNCHANGED <<nextH, mode>>
-
-(* ~suspend_point() :97-99 (also with _count_flag = 1) *)
-Destroy(i) ==
-    /\ Tick("Destroy") /\ sp[i].live
-    /\ Emit(sp[i].h)
-    /\ sp' = [sp EXCEPT ![i] = Dead]
-    /\ blocks' = blocks - B2N(sp[i].heap)
-    /\ ret' = 0 /\ NoAlloc
-    /\ UNCHANGED <<nextH, mode>>
-
-(* co_await sp[i] from the driver coroutine: await_ready :148; await_suspend :167-191: out = pop(),
-   the rest is queued in array order, then the driver itself; `out` is resumed by symmetric transfer,
-   control returns to flush_queue which resumes everything queued before, the rest, and finally
-   the driver.  In normal mode the same happens under install_queue_and_call (:186) and the driver
-   continues inside that flush_queue: from now on it runs in coroutine mode.  await_resume of a
-   typed suspend point returns the value. *)
-CoAwait(i) ==
-    /\ Tick("CoAwait") /\ sp[i].live
-    /\ ret' = sp[i].val
-    /\ IF sp[i].h = <<>>
-         THEN /\ burst' = <<>>
-              /\ UNCHANGED <<sp, resumed, queue, mode, blocks>>
-         ELSE /\ burst' = <<Last(sp[i].h)>> \o queue \o Front(sp[i].h)
-              /\ resumed' = Bump(resumed, burst')
-              /\ queue' = <<>>
-              /\ mode' = "coro"
-              /\ sp' = [sp EXCEPT ![i] = Cleared(sp[i])]
-              /\ blocks' = blocks - B2N(sp[i].heap)
-    /\ NoAlloc
-    /\ UNCHANGED nextH
-
-(* co_await cocls::pause() coro_queue.h:211-219: everything queued runs before the driver *)
-Pause ==
-    /\ Tick("Pause") /\ mode = "coro"
-    /\ burst' = queue
-    /\ resumed' = Bump(resumed, queue)
-    /\ queue' = <<>>
-    /\ ret' = 0 /\ NoAlloc
-    /\ UNCHANGED <<sp, nextH, mode, blocks>>
-
-(* the driver coroutine leaves its scope and returns: the objects still alive are destroyed in slot
-   order (each like Destroy), then flush_queue (coro_queue.h:63-70) drains the queue and the queue is
-   uninstalled (:105-108).  Always enabled: every history can be closed. *)
-Leftover == LET S[k \in 0..MaxObj] == IF k = 0 THEN <<>> ELSE S[k - 1] \o sp[k].h IN S[MaxObj]
-Finish ==
-    /\ ~done
-    /\ burst' = queue \o Leftover      \* normal mode: queue = <<>>, resumed by the destructors
-    /\ resumed' = Bump(resumed, burst')
-    /\ queue' = <<>>
-    /\ sp' = [k \in Slots |-> Dead]
-    /\ blocks' = blocks - Cardinality({k \in Slots : sp[k].live /\ sp[k].heap})
-    /\ mode' = "normal"
-    /\ done' = TRUE
-    /\ ret' = 0 /\ NoAlloc
-    /\ UNCHANGED <<nextH, steps>>
 
 (* consecutive operator<<(coroutine_handle<>&&) until the object holds n handles: a macro step over
    every boundary on the way (the replayer executes the single calls, the state is compared at the end) *)
@@ -305,18 +251,177 @@ AddTo(i, n) ==
            r == AddRun(sp[i], NewHandles(d))
        IN /\ sp' = [sp EXCEPT ![i] = r.o] /\ Grown(sp[i], r)
           /\ nextH' = nextH + d
-    /\ burst' = <<>> /\ ret' = 0
+    /\ burst' = <<>> /\ NoRet /\ Quiet
     /\ UNCHANGED <<resumed, queue, mode>>
+
+(* the common part of operator<<(suspend_point&&) :65-79: every handle of j is add()ed to i in array
+   order, j's block is deleted, j's flag word zeroed; v, m: value of i afterwards, jm: mv of j *)
+MergeInto(i, j, v, m, jm) ==
+    /\ i # j /\ sp[i].live /\ sp[j].live
+    /\ LET r == AddRun(sp[i], sp[j].h)
+       IN /\ sp' = [sp EXCEPT ![i] = [r.o EXCEPT !.val = v, !.mv = m], ![j] = [Cleared(sp[j]) EXCEPT !.mv = jm]]
+          /\ dalloc' = r.a
+          /\ blocks' = blocks + B2N(r.o.heap /\ ~sp[i].heap) - B2N(sp[j].heap)
+    /\ burst' = <<>> /\ NoRet /\ Quiet
+    /\ UNCHANGED <<nextH, resumed, queue, mode>>
+
+MergeShl(i, j) == Tick("MergeShl") /\ MergeInto(i, j, sp[i].val, sp[i].mv, sp[j].mv)
+
+(* operator=(suspend_point&&) :93 merges; between two typed objects the implicit move assignment of
+   suspend_point<X> also move-assigns the value (the source's value is left moved-from).
+   typed = std::move(untyped) does not compile. *)
+MoveAssign(i, j) ==
+    /\ Tick("MoveAssign") /\ ~(sp[i].ty /\ ~sp[j].ty)
+    /\ IF sp[i].ty /\ sp[j].ty THEN MergeInto(i, j, sp[j].val, sp[j].mv, TRUE)
+                               ELSE MergeInto(i, j, sp[i].val, sp[i].mv, sp[j].mv)
+
+(* reading the attached value: kind "conv" = operator X() :297, "cconv" = operator const X() const
+   :301.  Accessors: the attached value stays what it is. *)
+ReadKinds == {"conv", "cconv"}
+Read(i, kind) ==
+    /\ Tick("Read") /\ sp[i].live /\ sp[i].ty
+    /\ ret' = sp[i].val /\ rmf' = sp[i].mv
+    /\ burst' = <<>> /\ NoAlloc /\ Quiet
+    /\ UNCHANGED <<sp, nextH, resumed, queue, mode, blocks>>
+
+(* pop() :118-127; the caller (the replayer) resumes the returned handle at once - unless it is its
+   own handle: the running driver just drops its readiness token *)
+Pop(i) ==
+    /\ Tick("Pop") /\ sp[i].live
+    /\ rmf' = FALSE /\ dres' = 0
+    /\ IF sp[i].h = <<>>
+         THEN /\ ret' = 0 /\ burst' = <<>>
+              /\ UNCHANGED <<sp, resumed, selfReady>>
+         ELSE /\ ret' = Last(sp[i].h)
+              /\ IF Last(sp[i].h) = Self
+                   THEN burst' = <<>> /\ selfReady' = 0 /\ UNCHANGED resumed
+                   ELSE /\ burst' = <<Last(sp[i].h)>>
+                        /\ resumed' = Bump(resumed, burst')
+                        /\ UNCHANGED selfReady
+              /\ sp' = [sp EXCEPT ![i].h = Front(@)]     \* heap flag and capacity stay
+    /\ NoAlloc
+    /\ UNCHANGED <<nextH, queue, mode, blocks>>
+
+(* suspend_now() :130-145: coroutine mode -> queued in array order (the own handle too: the driver
+   is resumed through it at its next plain suspension, Yield / Finish); otherwise resumed at once in
+   array order under a temporarily installed queue - not generated with the own handle inside, that
+   would resume the running driver; then clear_internal() *)
+MayEmit(hs) == SelfIn(hs) => mode = "coro"
+Emit(hs) ==
+    IF mode = "coro"
+      THEN /\ queue' = queue \o hs /\ burst' = <<>> /\ UNCHANGED resumed
+      ELSE /\ burst' = hs /\ resumed' = Bump(resumed, hs) /\ UNCHANGED queue
+
+(* clear() :108 / suspend_now() *)
+Clear(i) ==
+    /\ Tick("Clear") /\ sp[i].live /\ MayEmit(sp[i].h)
+    /\ Emit(sp[i].h)
+    /\ sp' = [sp EXCEPT ![i] = Cleared(sp[i])]
+    /\ blocks' = blocks - B2N(sp[i].heap)
+    /\ NoRet /\ NoAlloc /\ Quiet
+    /\ UNCHANGED <<nextH, mode>>
+
+(* ~suspend_point() :97-99 (also with _count_flag = 1) *)
+Destroy(i) ==
+    /\ Tick("Destroy") /\ sp[i].live /\ MayEmit(sp[i].h)
+    /\ Emit(sp[i].h)
+    /\ sp' = [sp EXCEPT ![i] = Dead]
+    /\ blocks' = blocks - B2N(sp[i].heap)
+    /\ NoRet /\ NoAlloc /\ Quiet
+    /\ UNCHANGED <<nextH, mode>>
+
+(* flush_queue (coro_queue.h:63-70) running while the driver is suspended and queued at most once in
+   q: everything in front of the driver is resumed, the driver continues, the rest stays queued *)
+FlushTo(pre, q) ==
+    IF SelfIn(q)
+      THEN /\ burst' = pre \o SubSeq(q, 1, PosSelf(q) - 1)
+           /\ queue' = SubSeq(q, PosSelf(q) + 1, Len(q))
+      ELSE /\ burst' = pre \o q
+           /\ queue' = <<>>
+
+(* co_await sp[i] from the driver coroutine: await_ready :148; await_suspend :167-191: out = pop(),
+   the rest is queued in array order, then the driver itself unless its own handle is among the
+   rest or is `out`; `out` is resumed by symmetric transfer, control returns to flush_queue which
+   resumes what is queued up to the driver.  If `out` is the driver's own handle the symmetric
+   transfer continues the driver at once and everything else stays queued (Fixed = FALSE: and the
+   driver is queued once more).  In normal mode the same happens under install_queue_and_call (:186)
+   and the driver continues inside that flush_queue: from now on it runs in coroutine mode.
+   await_resume of a typed suspend point returns (a reference to) the value.
+   Not generated: a non-empty object while the own handle already waits in the queue. *)
+CoAwait(i) ==
+    /\ Tick("CoAwait") /\ sp[i].live
+    /\ ret' = sp[i].val /\ rmf' = sp[i].mv
+    /\ IF sp[i].h = <<>>
+         THEN /\ burst' = <<>> /\ Quiet
+              /\ UNCHANGED <<sp, resumed, queue, mode, blocks>>
+         ELSE /\ ~SelfIn(queue)
+              /\ LET out == Last(sp[i].h)
+                     rest == Front(sp[i].h)
+                 IN IF out = Self
+                      THEN /\ burst' = <<>>
+                           /\ queue' = queue \o rest \o (IF Fixed THEN <<>> ELSE <<Self>>)
+                           /\ UNCHANGED resumed
+                      ELSE /\ FlushTo(<<out>>, queue \o rest \o (IF SelfIn(rest) THEN <<>> ELSE <<Self>>))
+                           /\ resumed' = Bump(resumed, burst')
+              /\ dres' = 1
+              /\ selfReady' = IF SelfIn(sp[i].h) THEN 0 ELSE selfReady
+              /\ mode' = "coro"
+              /\ sp' = [sp EXCEPT ![i] = Cleared(sp[i])]
+              /\ blocks' = blocks - B2N(sp[i].heap)
+    /\ NoAlloc
+    /\ UNCHANGED nextH
+
+(* co_await cocls::pause() coro_queue.h:211-219: everything queued runs before the driver.
+   Not generated while the own handle waits in the queue (the driver would be queued twice). *)
+Pause ==
+    /\ Tick("Pause") /\ mode = "coro" /\ ~SelfIn(queue)
+    /\ burst' = queue
+    /\ resumed' = Bump(resumed, queue)
+    /\ queue' = <<>>
+    /\ dres' = 1 /\ UNCHANGED selfReady
+    /\ NoRet /\ NoAlloc
+    /\ UNCHANGED <<sp, nextH, mode, blocks>>
+
+(* a plain suspension (co_await std::suspend_always) while the own handle waits in the ready queue
+   (it got there by clear()/destruction in coroutine mode): the driver is resumed through it *)
+Yield ==
+    /\ Tick("Yield") /\ mode = "coro" /\ SelfIn(queue)
+    /\ FlushTo(<<>>, queue)
+    /\ resumed' = Bump(resumed, burst')
+    /\ dres' = 1 /\ selfReady' = 0
+    /\ NoRet /\ NoAlloc
+    /\ UNCHANGED <<sp, nextH, mode, blocks>>
+
+(* the end of every history: the driver suspends for good (flush_queue drains the ready queue), then
+   the objects still alive are destroyed from outside in slot order (each like Destroy) and
+   whatever that queued is flushed; the queue is uninstalled (:105-108).  If the own handle is still
+   around (in the queue or in an object) the suspended driver is resumed through it - once.
+   Always enabled: every history can be closed. *)
+Leftover == LET S[k \in 0..MaxObj] == IF k = 0 THEN <<>> ELSE S[k - 1] \o sp[k].h IN S[MaxObj]
+Finish ==
+    /\ ~done
+    /\ burst' = NoSelf(queue \o Leftover)     \* normal mode: queue = <<>>, resumed by the destructors
+    /\ resumed' = Bump(resumed, burst')
+    /\ dres' = selfReady /\ selfReady' = 0
+    /\ queue' = <<>>
+    /\ sp' = [k \in Slots |-> Dead]
+    /\ blocks' = blocks - Cardinality({k \in Slots : sp[k].live /\ sp[k].heap})
+    /\ mode' = "normal"
+    /\ done' = TRUE
+    /\ NoRet /\ NoAlloc
+    /\ UNCHANGED <<nextH, steps>>
 
 Kinds == {"same", "void", "int"}
 
-Next == \/ \E k \in Slots, t \in Types : ConstructEmpty(k, t) \/ ConstructH(k, t)
+Next == \/ \E k \in Slots, t \in Types : ConstructEmpty(k, t) \/ ConstructH(k, t) \/ ConstructSelf(k, t)
         \/ \E k \in Slots, i \in Slots, kind \in Kinds : MoveConstruct(k, i, kind)
-        \/ \E i \in Slots : AddHandle(i) \/ Pop(i) \/ Clear(i) \/ Destroy(i) \/ CoAwait(i)
+        \/ \E i \in Slots : AddHandle(i) \/ AddSelf(i) \/ Pop(i) \/ Clear(i) \/ Destroy(i) \/ CoAwait(i)
+        \/ \E i \in Slots, kind \in ReadKinds : Read(i, kind)
         \/ \E i \in Slots, n \in 1..MaxH : AddFill(i, n)
         \/ \E i \in Slots, n \in Targets : AddTo(i, n)
         \/ \E i \in Slots, j \in Slots : MergeShl(i, j) \/ MoveAssign(i, j)
         \/ Pause
+        \/ Yield
         \/ Finish
 
 Spec == Init /\ [][Next]_vars
@@ -328,10 +433,11 @@ Live == {k \in Slots : sp[k].live}
 
 TypeOK ==
     /\ nextH \in 0..MaxH /\ steps \in 0..MaxSteps /\ mode \in {"normal", "coro"}
-    /\ \A k \in Slots : /\ Range(sp[k].h) \subseteq 1..nextH
+    /\ selfReady \in {0, 1} /\ dres \in 0..2
+    /\ \A k \in Slots : /\ Range(sp[k].h) \subseteq (1..nextH) \cup {Self}
                         /\ ~sp[k].live => sp[k] = Dead
-                        /\ ~sp[k].ty => sp[k].val = 0
-    /\ Range(queue) \subseteq 1..nextH
+                        /\ ~sp[k].ty => sp[k].val = 0 /\ ~sp[k].mv
+    /\ Range(queue) \subseteq (1..nextH) \cup {Self}
     /\ mode = "normal" => queue = <<>>
 
 (* representation: inline holds at most 3; a heap block has capacity 6,12,24,...; the flag word may
@@ -341,18 +447,22 @@ RepOK ==
                                        /\ Len(sp[k].h) <= sp[k].cap
                                   ELSE sp[k].cap = 0 /\ Len(sp[k].h) <= InlineCap
 
-(* every handle ever handed in is in exactly one place: a live object, the ready queue, or resumed once.
-   Everywhere == all handle arrays and the queue laid end to end *)
+(* every handle ever handed in - the driver's own included - is in exactly one place: a live object,
+   the ready queue, or resumed once.  Everywhere == all handle arrays and the queue laid end to end *)
 Everywhere == LET S[k \in 0..MaxObj] == IF k = 0 THEN queue ELSE S[k - 1] \o sp[k].h IN S[MaxObj]
 Conservation ==
     LET e == Everywhere
         held == Range(e)
     IN /\ Cardinality(held) = Len(e)                                   \* nowhere twice
        /\ \A x \in Handles : (IF x \in held THEN 1 ELSE 0) + resumed[x] = (IF x <= nextH THEN 1 ELSE 0)
+       /\ (IF Self \in held THEN 1 ELSE 0) = selfReady     \* the driver is queued / held iff it is owed a resumption
 
+(* nobody - the driver included - is resumed more than once per readiness, and nobody is forgotten *)
 NoDoubleResume ==
     /\ \A x \in Handles : resumed[x] <= 1
-    /\ done => \A x \in 1..nextH : resumed[x] = 1
+    /\ dres <= 1
+    /\ Occ(Everywhere, Self) <= selfReady
+    /\ done => (selfReady = 0 /\ \A x \in 1..nextH : resumed[x] = 1)
 
 NoLeak ==
     /\ blocks = Cardinality({k \in Live : sp[k].heap})
@@ -371,41 +481,54 @@ MovedFromIsEmpty ==
     [][\A i \in Slots, j \in Slots :
           (i # j /\ sp[i].live /\ sp[i].h # <<>> /\ sp'[j].live /\ HandleSet(sp[i]) \subseteq HandleSet(sp'[j]))
              => /\ sp'[i].live /\ sp'[i].h = <<>> /\ ~sp'[i].heap
-                /\ burst' = <<>> /\ queue' = queue]_vars
+                /\ burst' = <<>> /\ queue' = queue /\ dres' = 0]_vars
 
 (* an empty object (also one with a retained heap block) resumes and queues nothing *)
 EmptyResumesNothing ==
     [][(\A k \in Slots : sp[k].h = <<>>) => (Range(burst') \subseteq Range(queue) /\ Range(queue') \subseteq Range(queue))]_vars
 
-(* the value of a typed object changes only by move assignment from a typed object, whose value and
-   handles it takes; being moved from, merged, popped, cleared, awaited never changes it *)
+(* the attached value (identity and moved-from state) of a typed object changes only by the C++ move
+   operations of the whole object: as the target of a move assignment from a typed object (takes
+   both), or as the source of a move construction / move assignment to a typed object (left
+   moved-from, which the target is not unless the source already was).  Being merged, popped,
+   cleared, awaited or READ never changes it, and a read returns exactly what is attached. *)
 ValuePreserved ==
-    [][\A i \in Slots : (sp[i].live /\ sp'[i].live /\ sp'[i].val # sp[i].val) =>
-          \E j \in Slots : /\ j # i /\ sp[j].live /\ sp[j].ty /\ sp[i].ty
-                           /\ sp'[i].val = sp[j].val
-                           /\ sp'[i].h = sp[i].h \o sp[j].h /\ sp'[j].h = <<>>]_vars
+    [][\A i \in Slots : (sp[i].live /\ sp'[i].live /\ <<sp'[i].val, sp'[i].mv>> # <<sp[i].val, sp[i].mv>>) =>
+             \/ \E j \in Slots : /\ j # i /\ sp[j].live /\ sp[j].ty /\ sp[i].ty
+                                 /\ sp'[i].val = sp[j].val /\ sp'[i].mv = sp[j].mv
+                                 /\ sp'[i].h = sp[i].h \o sp[j].h /\ sp'[j].h = <<>> /\ sp'[j].mv
+             \/ \E j \in Slots : /\ j # i /\ sp'[j].live /\ sp'[j].ty /\ sp[i].ty
+                                 /\ sp'[i].val = sp[i].val /\ sp'[i].mv /\ sp'[i].h = <<>>
+                                 /\ sp'[j].val = sp[i].val /\ sp'[j].mv = sp[i].mv]_vars
+
+(* all reads of one object agree: whatever a read / co_await returns is the attached value, which
+   the read leaves alone *)
+ReadsAgree ==
+    [][(ret' # 0 /\ burst' = <<>> /\ dres' = 0 /\ sp' = sp /\ selfReady' = selfReady) =>
+          \E i \in Slots : sp[i].live /\ sp[i].ty /\ ret' = sp[i].val /\ rmf' = sp[i].mv]_vars
 
 (* handles leave an object in array order (to the queue, or resumed), except that co_await resumes
-   the last one first *)
+   the last one first; the driver's own handle is not a coroutine to resume here, it only decides
+   how far the flush goes *)
 Kept == UNION {Range(sp'[k].h) : k \in Slots}
 ResumeOrder ==
     [][\A i \in Slots :
-         LET old == sp[i].h
+         LET old == NoSelf(sp[i].h)
              kept == Kept
              goneSeq == SelectSeq(old, LAMBDA x : x \notin kept)      \* left every object, in array order
              goneSet == Range(goneSeq)
              outSel == SelectSeq(burst' \o queue', LAMBDA x : x \in goneSet)
          IN goneSeq # <<>> =>
                \/ outSel = goneSeq
-               \/ /\ mode' = "coro" /\ goneSeq = old /\ burst'[1] = Last(old)
+               \/ /\ mode' = "coro" /\ goneSeq = old /\ burst' # <<>> /\ burst'[1] = Last(old)
                   /\ outSel = <<Last(old)>> \o Front(old)]_vars
 
-(* the ready queue is first-in first-out: it is only appended to, or drained in order *)
+(* the ready queue is first-in first-out: it is only appended to; a flush takes from its front, in
+   order, and what it does not reach keeps its place *)
 IsPrefix(a, b) == Len(a) <= Len(b) /\ SubSeq(b, 1, Len(a)) = a
+IsInfix(a, b) == \E k \in 0..Len(b) : k + Len(a) <= Len(b) /\ SubSeq(b, k + 1, k + Len(a)) = a
 QueueFIFO ==
-    [][\/ IsPrefix(queue, queue')
-       \/ /\ queue' = <<>>
-          /\ \E k \in 0..Len(burst') : /\ k + Len(queue) <= Len(burst')
-                                      /\ SubSeq(burst', k + 1, k + Len(queue)) = queue]_vars
+    [][\E k \in 0..Len(queue) : /\ IsInfix(NoSelf(SubSeq(queue, 1, k)), burst')
+                                /\ IsPrefix(SubSeq(queue, k + 1, Len(queue)), queue')]_vars
 
 =============================================================================
